@@ -4,6 +4,7 @@ import (
 	"bytes"
 	"encoding/binary"
 	"fmt"
+	"strings"
 )
 
 // The specification works on abstract key / value ids. A Profile is the
@@ -44,6 +45,12 @@ func TextProfile(ps int) Profile { return Profile{"text", 10, []int{12, 40, ps /
 func ProfileByName(ps int, name string) Profile {
 	if name == "text" {
 		return TextProfile(ps)
+	}
+	// "cross:<n>": small values, except that every value id divisible by 7 has length n (one allocation of a chosen size)
+	if strings.HasPrefix(name, "cross:") {
+		n := 0
+		fmt.Sscanf(name[6:], "%d", &n)
+		return Profile{name, 8, []int{n, 16, 24, 9, 12, 20, 30}, false}
 	}
 	for _, p := range Profiles(ps) {
 		if p.Name == name {
